@@ -113,6 +113,7 @@ type HarnessResult struct {
 	Obs           []string                     `json:"-"`
 	Aborted       string                       `json:"aborted,omitempty"`
 	Params        map[string]int64             `json:"params,omitempty"`
+	satOKSet      map[string]bool
 }
 
 type Explorer struct {
@@ -336,6 +337,14 @@ func (ex *Explorer) RunHarness(fn *ssa.Function) *HarnessResult {
 		}
 	}
 	res.Wall = time.Since(ex.start).Seconds()
+	// a satisfiability obligation holds if it is satisfiable on at least one path
+	var stillFail []string
+	for _, l := range res.SatFail {
+		if !res.satOKSet[l] {
+			stillFail = append(stillFail, l)
+		}
+	}
+	res.SatFail = stillFail
 	sort.Strings(res.Races)
 	return res
 }
@@ -369,6 +378,12 @@ func (ex *Explorer) merge(res *HarnessResult, pr *PathResult) {
 	res.SolverAsserts += pr.SolverAsserts
 	res.Unknowns += pr.Unknowns
 	res.SatOK += len(pr.SatOK)
+	for _, s := range pr.SatOK {
+		if res.satOKSet == nil {
+			res.satOKSet = map[string]bool{}
+		}
+		res.satOKSet[s] = true
+	}
 	for _, s := range pr.SatFail {
 		if !contains(res.SatFail, s) {
 			res.SatFail = append(res.SatFail, s)
